@@ -81,6 +81,8 @@ int _ZNKSt7__cxx1112basic_stringIcSt11char_traitsIcESaIcEE7compareEmmPKc(const S
 { if (pos > s->n) abort(); size_t rl = s->n - pos; if (n < rl) rl = n; size_t m = strlen(c), k = rl < m ? rl : m; int r = k ? memcmp(s->p + pos, c, k) : 0; if (r) return r; return rl < m ? -1 : rl > m ? 1 : 0; }
 int _ZNKSt7__cxx1112basic_stringIcSt11char_traitsIcESaIcEE7compareERKS4_(const Str* s, const Str* o)
 { size_t k = s->n < o->n ? s->n : o->n; int r = k ? memcmp(s->p, o->p, k) : 0; if (r) return r; return s->n < o->n ? -1 : s->n > o->n ? 1 : 0; }
+void _ZNSt7__cxx1112basic_stringIcSt11char_traitsIcESaIcEE8_M_eraseEmm(Str* s, size_t pos, size_t n)
+{ size_t tail = s->n - pos - n; if (tail && n) memmove(s->p + pos, s->p + pos + n, tail); s->n -= n; s->p[s->n] = 0; }
 Str* _ZNSt7__cxx1112basic_stringIcSt11char_traitsIcESaIcEEaSEPKc(Str* s, const char* c)
 { size_t n = strlen(c); str_reserve(s, n); memcpy(s->p, c, n + 1); s->n = n; return s; }
 Str* _ZNSt7__cxx1112basic_stringIcSt11char_traitsIcESaIcEEaSEOS4_(Str* s, Str* o)
